@@ -94,9 +94,12 @@ ReadMetaOnly ==
   /\ Act([op |-> "read_data", raises |-> TRUE, fds |-> {}])
   /\ UNCHANGED <<cfg, api, libfds, callerClosed>>
 
-\* TdmsWriter used as a context manager on a path / stream, with or without index file; the body may raise
+\* TdmsWriter used as a context manager on a path / stream, with or without index file; the body may raise.
+\* A writer given a path may be entered again after its block was left: each block opens and closes its own files
+\* (a writer given streams drops them when its block is left and cannot be entered again).
 WriterWith(bodyRaises) ==
-  /\ CanAct /\ api = "none" /\ cfg.fault = "none" /\ cfg.index \in {"none", "index"}
+  /\ CanAct /\ (api = "none" \/ (api = "written" /\ cfg.source = "path"))
+  /\ cfg.fault = "none" /\ cfg.index \in {"none", "index"}
   /\ Act([op |-> "writer_with", raises |-> bodyRaises, fds |-> {},
           during |-> IF cfg.source = "stream" THEN {} ELSE IF cfg.index = "index" THEN {"data", "index"} ELSE {"data"}])
   /\ api' = "written" /\ libfds' = {}
